@@ -105,6 +105,20 @@ func TestCheck(t *testing.T) {
 			return // debugging aid: only the typed cases
 		}
 		mode := gspec.Mode(idx % 3)
+		if idx%9 == 6 {
+			// a cyclic any-predecessor spec whose step limit is lower than what the run needs
+			o := genOpts(rng, cfg, gspec.Pregel)
+			o.Cycles = 0.7
+			spec := gspec.Gen(rng, o)
+			in := gspec.V{"in": rng.Str(1, 5)}
+			if ref := gspec.EvalGraph(spec, in, nil); ref.Err == "" && ref.NSteps >= 2 {
+				spec.MaxSteps = 1 + rng.Intn(ref.NSteps-1)
+			}
+			if ref := gspec.EvalGraph(spec, in, nil); ref.Err == "maxsteps" {
+				stepLimitCase(ctx, rep, rng, cfg, spec, in, ref)
+			}
+			return
+		}
 		spec := gspec.Gen(rng, genOpts(rng, cfg, mode))
 		addReruns(rng, spec)
 		specCase(ctx, rep, rng, cfg, spec, idx < 2)
@@ -116,6 +130,10 @@ func isRerunAbort(e gspec.Exec) bool { return strings.Contains(e.Err, "interrupt
 func specCase(ctx context.Context, rep *mon.Reporter, rng *mon.Rand, cfg mon.Config, spec *gspec.GraphSpec, sample bool) {
 	in := gspec.V{"in": rng.Str(1, 5)}
 	ref := gspec.EvalGraph(spec, in, nil)
+	if ref.Err == "maxsteps" && spec.Mode == gspec.Pregel && !hasRerun(spec) {
+		stepLimitCase(ctx, rep, rng, cfg, spec, in, ref)
+		return
+	}
 	if ref.Err != "" {
 		rep.Count("skipped_reference_fails_"+ref.Err, 1)
 		return
